@@ -68,6 +68,31 @@ def common_type_deterministic(sa: bool, wa: int, sb: bool, wb: int) -> bool:
            (r2[0].signed, r2[0].bit_width, r2[1].signed, r2[1].bit_width)
 
 
+def results_are_not_shared_state(sa: bool, wa: int, sb: bool, wb: int) -> bool:
+    """
+    pre: 1 <= wa <= 2048 and 1 <= wb <= 2048
+    post: __return__
+    """
+    # callers do modify the types they get back (e.g. the constant folder sets `.signed` on a common type): a result that
+    # is not one of the arguments must be a fresh object, so modifying it cannot change what a later call returns
+    a, b = ValueType(sa, wa), ValueType(sb, wb)
+    r = c11_cast(a, b)
+    if r[0] is not a:
+        r[0].signed = not r[0].signed
+        r[0].bit_width = r[0].bit_width + 8
+    if r[1] is not b:
+        r[1].signed = not r[1].signed
+        r[1].bit_width = r[1].bit_width + 8
+    q = c11_cast(ValueType(sa, wa), ValueType(sb, wb))
+    want = _c11(sa, wa, sb, wb)
+    p1 = promoted_type(ValueType(sa, wa))
+    if p1.bit_width != wa or wa < 32:
+        p1.signed = not p1.signed
+    p2 = promoted_type(ValueType(sa, wa))
+    pw = (True, 32) if wa < 32 else (sa, wa)
+    return (q[0].signed, q[0].bit_width) == want and (q[1].signed, q[1].bit_width) == want and (p2.signed, p2.bit_width) == pw
+
+
 def promotion_matches_c11(s: bool, w: int, g: int) -> bool:
     """
     pre: 1 <= w <= 2048 and 0 <= g < 4
